@@ -5,8 +5,31 @@
    [draw] streams are the recorded answers of rng.permutation / rng.choice / heappop / argsort. *)
 From Coq Require Import ZArith List Bool Permutation.
 From Batchie Require Import Lib.Sexp Model.Encode Model.Screen Model.Retro Model.Pairwise Model.RetroHoldout
-  Model.RetroInit Proofs.C11Lib Proofs.C11Gen Proofs.C11Smooth Proofs.C11Select Proofs.C11Holdout Proofs.C11Init.
+  Model.RetroInit Proofs.C11Lib Proofs.C11Gen Proofs.C11Smooth Proofs.C11Select Proofs.C11Holdout Proofs.C11Init
+  Generated.SrcRetro Proofs.C11Source.
 Import ListNotations.
+
+(* ---- the models are what the source says NOW ----
+   `src_*` (Generated/SrcRetro.v) are WHOLE functions of /repo's current working tree, re-translated statement by
+   statement on every run (harness/py2gal.py, configurations in harness/src_functions.py); each equals the
+   hand-written model for ALL inputs, so the theorems below are theorems about the translated source.
+   Trusted: the translator and the primitives listed in the configurations (Model/Retro.v, last section). *)
+
+(* RetrospectivePlateGenerator.generate_plates (core.py): split into unobserved / observed, `is None` checks,
+   to_screen, recombination new ++ observed - for EVERY inner generator f (the abstract self._generate_plates),
+   in particular the shipped ones the conservation theorems are about *)
+Theorem C11_model_is_source_generate_plates : forall rows ds,
+  (forall f : inner, src_generate_plates f rows ds = wrap f rows ds) /\
+  (forall g, src_generate_plates (generate_inner g) rows ds = generate_plates g rows ds).
+Proof. exact src_generate_plates_is_model. Qed.
+Print Assumptions C11_model_is_source_generate_plates.
+
+(* RetrospectivePlateSmoother.smooth_plates (core.py), likewise *)
+Theorem C11_model_is_source_smooth_plates : forall rows ds,
+  (forall f : inner, src_smooth_plates f rows ds = wrap f rows ds) /\
+  (forall sm, src_smooth_plates (smooth_inner sm) rows ds = smooth_plates sm rows ds).
+Proof. exact src_smooth_plates_is_model. Qed.
+Print Assumptions C11_model_is_source_smooth_plates.
 
 (* every shipped generator (PlatePermutation, SampleSegregating in both variants, Pairwise), every
    oracle answer: the output is new ++ (observed input rows, unchanged, still observed), the new rows
